@@ -93,6 +93,20 @@ fn op_dispatch(op: &str, a: &[&str]) -> String {
             let start: u32 = a.get(2).map(|s| s.parse().unwrap()).unwrap_or(0);
             lex_json(&src, mode_of(a[0]), start)
         }
+        "lexb" => {
+            // lex + the line-boundary records of hook H1: {"toks":…, "bounds":[[location, at_begin_of_line, nesting, [[tabs, spaces]…]]…]}
+            let src = unhex(a[1]);
+            let _ = rp::verif::take_lexer_boundaries();
+            let toks = lex_json(&src, mode_of(a[0]), 0);
+            let b: Vec<String> = rp::verif::take_lexer_boundaries()
+                .into_iter()
+                .map(|(loc, abol, nesting, st)| {
+                    let st: Vec<String> = st.iter().map(|(t, s)| format!("[{},{}]", t, s)).collect();
+                    format!("[{},{},{},[{}]]", loc, abol, nesting, st.join(","))
+                })
+                .collect();
+            format!("{},\"bounds\":[{}]}}", &toks[..toks.len() - 1], b.join(","))
+        }
         "expr" => parse_res_json(&ast::Expr::parse(&unhex(a[0]), "<v>")),
         "const" => parse_res_json(&ast::Constant::parse(&unhex(a[0]), "<v>")),
         "unparse" => crate::engines::c11::unparse_one(&unhex(a[0])),
